@@ -268,7 +268,162 @@ def w_pending(failure, tier):
     return dict(found=False, note='Wal::last_pending_ops: %d logs tried, all agree' % len(cases))
 
 
+# ---------------------------------------------------------------- generic search driver
+REQ_BASE = {"limit": 1000, "return_stored": False, "highlight_field": None, "execution": "bm25"}
+
+
+def drive_search(case):
+    r = drive('search', [_json.dumps(case).encode()])[0]
+    if not r.startswith('OK '):
+        return None, r
+    return _json.loads(r[3:]), None
+
+
+# ---------------------------------------------------------------- U11 phrase / slop
+def ref_phrase(tokens, terms, slop):
+    """documented semantics: one position per phrase term, strictly increasing, gaps sum <= slop"""
+    pos = [[i for i, t in enumerate(tokens) if t == term] for term in terms]
+    def go(idx, prev, rem):
+        if idx >= len(pos):
+            return True
+        for p in pos[idx]:
+            if p <= prev:
+                continue
+            gap = p - prev - 1
+            if gap <= rem and go(idx + 1, p, rem - gap):
+                return True
+        return False
+    if any(len(p) == 0 for p in pos):
+        return False
+    return any(go(1, st, slop) for st in pos[0])
+
+
+def w_phrase(failure, tier):
+    import itertools as it
+    docs = []
+    words = ['aa', 'bb', 'cc']
+    fill = 'zz'
+    n = 0
+    # docs: aa (g1 fillers) bb (g2 fillers) cc , plus reorderings and repeated terms
+    for g1 in range(0, 4):
+        for g2 in range(0, 4):
+            toks = ['aa'] + [fill] * g1 + ['bb'] + [fill] * g2 + ['cc']
+            docs.append(('d%d' % n, toks)); n += 1
+    for toks in (['cc', 'bb', 'aa'], ['aa', 'aa', 'bb', 'cc'], ['aa', 'bb', 'zz', 'bb', 'cc'], ['bb', 'aa', 'zz', 'zz', 'bb', 'zz', 'cc', 'aa', 'bb', 'cc'],
+                 ['aa', 'zz', 'zz', 'cc', 'bb', 'cc'], ['aa', 'bb'], ['aa', 'cc']):
+        docs.append(('d%d' % n, toks)); n += 1
+    reqs = []
+    meta = []
+    for terms in (['aa', 'bb'], ['aa', 'bb', 'cc'], ['bb', 'cc'], ['aa', 'cc'], ['bb', 'bb', 'cc']):
+        for slop in range(0, 5):
+            reqs.append(dict(REQ_BASE, query={"type": "phrase", "field": "body", "terms": terms, "slop": slop}))
+            meta.append((terms, slop))
+    case = {"schema": None, "batches": [[{"_id": i, "body": ' '.join(t)} for (i, t) in docs]], "requests": reqs}
+    out, err = drive_search(case)
+    if out is None:
+        return dict(found=False, note='search driver failed: %s' % err)
+    for (terms, slop), o in zip(meta, out):
+        if 'ok' not in o:
+            return dict(found=True, cmd='%s search' % BIN, input='phrase %s slop %d over the fixed corpus' % (terms, slop), observed=str(o)[:400], expected='a result')
+        got = sorted(h['doc_id'] for h in o['ok']['hits'])
+        exp = sorted(i for (i, t) in docs if ref_phrase(t, terms, slop))
+        if got != exp:
+            d = [x for x in set(got) ^ set(exp)][0]
+            toks = dict(docs)[d]
+            return dict(found=True, cmd='%s search <<< hex(json)' % BIN,
+                        input='index one document body=%r; phrase query terms=%s slop=%d' % (' '.join(toks), terms, slop),
+                        observed='document %s' % ('matched' if d in got else 'did not match'),
+                        expected='document %s (positions one per term, increasing, total gap <= slop)' % ('must not match' if d in got else 'must match'))
+    return dict(found=False, note='phrase search: %d documents x %d (terms, slop) queries agree with the slop-chain reference' % (len(docs), len(reqs)))
+
+
+# ---------------------------------------------------------------- U10 boolean semantics
+def w_bool(failure, tier):
+    import itertools as it
+    import random
+    rnd = random.Random(int(os.environ.get('VERIF_SEED', '0') or 0))
+    terms = ['t1', 't2', 't3', 't4']
+    docs = []
+    for k, bits in enumerate(it.product([0, 1], repeat=4)):
+        toks = [t for t, b in zip(terms, bits) if b] + ['common']
+        docs.append(('d%d' % k, set(toks)))
+
+    def leaf():
+        return {"type": "term", "field": "body", "value": rnd.choice(terms)}
+
+    def gen(depth):
+        c = rnd.random()
+        if depth == 0 or c < 0.3:
+            return leaf()
+        if c < 0.45:
+            return {"type": "dis_max", "queries": [gen(depth - 1) for _ in range(rnd.randint(1, 3))]}
+        if c < 0.55:
+            ws = rnd.sample(terms, rnd.randint(1, 3))
+            q = ' '.join(('-' + w) if rnd.random() < 0.3 else w for w in ws)
+            return {"type": "query_string", "query": q, "fields": ["body"]}
+        node = {"type": "bool",
+                "must": [gen(depth - 1) for _ in range(rnd.choice([0, 0, 1, 2]))],
+                "should": [gen(depth - 1) for _ in range(rnd.choice([0, 1, 2, 3]))],
+                "must_not": [gen(depth - 1) for _ in range(rnd.choice([0, 0, 1]))]}
+        if rnd.random() < 0.3:
+            node["minimum_should_match"] = rnd.randint(0, 3)
+        if not (node["must"] or node["should"] or node["must_not"]):
+            node["should"] = [leaf()]
+        return node
+
+    def ev(q, toks):
+        t = q["type"]
+        if t == "term":
+            return q["value"] in toks
+        if t == "dis_max":
+            return any(ev(c, toks) for c in q["queries"])
+        if t == "query_string":
+            pos = [w for w in q["query"].split() if not w.startswith('-')]
+            neg = [w[1:] for w in q["query"].split() if w.startswith('-')]
+            if any(w in toks for w in neg):
+                return False
+            if not pos:
+                return bool(neg)
+            return sum(1 for w in pos if w in toks) >= 1
+        must, should, must_not = q.get("must", []), q.get("should", []), q.get("must_not", [])
+        if not all(ev(c, toks) for c in must):
+            return False
+        if any(ev(c, toks) for c in must_not):
+            return False
+        cnt = sum(1 for c in should if ev(c, toks))
+        msm = q.get("minimum_should_match")
+        if msm is None:
+            msm = 1 if (should and not must) else 0
+        return cnt >= msm
+
+    # candidate generation needs a positive clause: wrap as must:[common-term, Q] so every doc is a candidate
+    queries = [gen(2) for _ in range(60 if tier == 'quick' else 400)]
+    # the shapes the property names explicitly
+    queries += [{"type": "bool", "must": [leaf()], "should": [leaf(), leaf()]},
+                {"type": "bool", "should": [leaf()], "must_not": [leaf()]},
+                {"type": "bool", "should": [leaf(), leaf()], "minimum_should_match": 2}]
+    reqs = [dict(REQ_BASE, query={"type": "bool", "must": [{"type": "term", "field": "body", "value": "common"}, q]}) for q in queries]
+    case = {"schema": None, "batches": [[{"_id": i, "body": ' '.join(sorted(t))} for (i, t) in docs]], "requests": reqs}
+    out, err = drive_search(case)
+    if out is None:
+        return dict(found=False, note='search driver failed: %s' % err)
+    for q, o in zip(queries, out):
+        if 'ok' not in o:
+            continue
+        got = sorted(h['doc_id'] for h in o['ok']['hits'])
+        exp = sorted(i for (i, t) in docs if ev(q, t))
+        if got != exp:
+            d = sorted(set(got) ^ set(exp))[0]
+            return dict(found=True, cmd='%s search <<< hex(json)' % BIN,
+                        input='documents over tokens {t1..t4}; query must:[term common, Q] with Q=%s' % _json.dumps(q),
+                        observed='document %s with tokens %s %s' % (d, sorted(dict(docs)[d]), 'matched' if d in got else 'did not match'),
+                        expected='%s under the documented bool/dis_max/query_string semantics' % ('no match' if d in got else 'a match'))
+    return dict(found=False, note='boolean matcher: %d random query trees (depth <= 3) over 16 documents agree with the documented semantics' % len(queries))
+
+
 GENERATORS = {
+    ('U11', 'search'): w_phrase,
+    ('U10', 'matches_node'): w_bool,
     ('U2', 'replay_slice'): w_replay,
     ('U2', 'append_entry_buf'): w_append,
     ('U2', 'last_pending_fold'): w_pending,
